@@ -398,6 +398,13 @@ def judge(sim: DenSim) -> list:
                 sim.violate(ID, "area", f"{kind}/denm-event-position/{hemi}", f"op {ev['idx']}: DENM {j} carries event position "
                             f"({ep['latitude']},{ep['longitude']}), requested ({lat},{lon})")
                 flags.append("area")
+            if not area_done and shape_ok and (abs(a.latitude - ep["latitude"]) > tol or abs(a.longitude - ep["longitude"]) > tol):
+                # whatever the event position is taken to be when one service object is re-triggered: the circle of THIS message
+                # must be centred on the event position THIS message carries
+                area_done = True
+                sim.violate(ID, "area", f"{kind}/centre-vs-carried-position/{hemi}", f"op {ev['idx']}: DENM {j} carries event position "
+                            f"({ep['latitude']},{ep['longitude']}) but is geo-broadcast to a circle centred on ({a.latitude},{a.longitude})")
+                flags.append("area")
             idt = _ident(d)
             idents.append(idt)
             if not ident_done and idt != idents[0]:
